@@ -19,13 +19,15 @@ package packetmap
 //@ ghost field Map.dropped uint16
 //@ ghost field Map.started bool
 //@ ghost field Map.lastOut uint16
+//@ --   droppedFrames: picture ids (frames) withheld since the last resynchronisation
+//@ ghost field Map.droppedFrames uint16
 //@
 //@ spec shape(m *Map) bool = len(m.entries) <= 128
 //@      && (len(m.entries) == 0 ==> m.lastEntry == 0 && m.delta == 0 && m.pidDelta == 0 && isnil(m.entries))
 //@      && (len(m.entries) > 0 ==> int(m.lastEntry) < len(m.entries))
 //@ -- I_tail: the newest interval ends exactly where the withheld packets begin
 //@ spec tail(m *Map) bool = len(m.entries) > 0 ==> last(m).first + last(m).count + (last(m).delta - m.delta) == m.next
-//@ spec wf(m *Map) bool = shape(m) && tail(m) && m.delta == 0 - m.dropped
+//@ spec wf(m *Map) bool = shape(m) && tail(m) && m.delta == 0 - m.dropped && m.pidDelta == m.droppedFrames
 //@      && (!m.started ==> m.next == 0 && isnil(m.entries))
 //@ -- the next outgoing number is the one after the newest forwarded packet
 //@ spec contiguous(m *Map) bool = m.started ==> m.next + m.delta == m.lastOut + 1
@@ -51,8 +53,10 @@ package packetmap
 //@   requires nonnil: m != nil
 //@   requires unlocked: !held(m.mu)
 //@   requires wf: wf(m) && contiguous(m)
-//@   modifies m.next, m.nextPid, m.delta, m.pidDelta, m.entries, held(m.mu), m.dropped, m.started, m.lastOut
+//@   modifies m.next, m.nextPid, m.delta, m.pidDelta, m.entries, held(m.mu), m.dropped, m.started, m.lastOut, m.droppedFrames
 //@   ghost m.dropped = result ? old(m.dropped) + 1 : old(m.dropped)
+//@   -- a withheld packet whose picture id differs from the previous packet's starts a newly withheld frame
+//@   ghost m.droppedFrames = result ? old(m.droppedFrames) + (pid - old(m.nextPid)) : old(m.droppedFrames)
 //@   ghost m.lastOut = (result && !old(m.started)) ? seqno - 1 : old(m.lastOut)
 //@   ghost m.started = old(m.started) || result
 //@   ensures unlocked: !held(m.mu)
@@ -122,8 +126,9 @@ package packetmap
 //@   requires nonnil: m != nil
 //@   requires unlocked: !held(m.mu)
 //@   requires wf: wf(m) && contiguous(m)
-//@   modifies m.next, m.nextPid, m.delta, m.pidDelta, m.lastEntry, m.entries, full(m.entries), held(m.mu), m.dropped, m.started, m.lastOut
+//@   modifies m.next, m.nextPid, m.delta, m.pidDelta, m.lastEntry, m.entries, full(m.entries), held(m.mu), m.dropped, m.started, m.lastOut, m.droppedFrames
 //@   ghost m.dropped = (!old(pristine(m)) && old(jump(m, seqno))) ? 0 : old(m.dropped)
+//@   ghost m.droppedFrames = (!old(pristine(m)) && old(jump(m, seqno))) ? 0 : old(m.droppedFrames)
 //@   ghost m.lastOut = (!old(m.started) || (old(pristine(m)) ? old(pristine_updates(m, seqno)) : !old(late(m, seqno)))) ? result1 : old(m.lastOut)
 //@   ghost m.started = true
 //@   ensures unlocked: !held(m.mu)
@@ -138,6 +143,8 @@ package packetmap
 //@   ensures number-is-source-minus-withheld: (old(pristine(m)) || old(inorder(m, seqno))) ==> result0 && result1 == seqno - old(m.dropped)
 //@   -- C01: unique, ordered, no gap for withheld packets: the number is the successor of the last one given out,
 //@   --      plus one for every packet that has not arrived (yet)
+//@   -- C02: the picture-id shift handed out is the number of frames withheld so far
+//@   ensures pid-shift: (old(pristine(m)) || old(inorder(m, seqno))) ==> result2 == old(m.droppedFrames)
 //@   ensures gap-free: old(m.started) && old(inorder(m, seqno)) ==> result1 == old(m.lastOut) + 1 + (seqno - old(m.next))
 //@   ensures jump: !old(pristine(m)) && old(jump(m, seqno)) ==> result0 && result1 == seqno && result2 == 0
 //@        && m.next == seqno + 1 && m.nextPid == pid && pristine(m) && m.dropped == 0
@@ -153,6 +160,8 @@ package packetmap
 //@        covers(last(m), seqno) && tcovers(last(m), result1) && last(m).delta == old(m.delta) && last(m).pidDelta == old(m.pidDelta)
 //@
 //@ func (*Map).Reverse
+//@   -- the "entries == nil but delta != 0" branch is dead code under the representation invariant
+//@   unreachable ret4 ret5
 //@   safe
 //@   props C03 C12
 //@   requires nonnil: m != nil
